@@ -10,7 +10,7 @@ from hypothesis import strategies as st
 
 from .. import arr as A
 from .. import unit as U
-from ..core import Failure, drive
+from ..core import sstr, Failure, drive
 from ..gen import models as M
 from ..ref import commands as R
 
@@ -103,13 +103,13 @@ def check_model(model, rec):
             results = localise(text, tmp, model)
         if "<load>" in results:
             exc = results["<load>"][1]
-            return [Failure("load_raises:%s" % A.exc_name(exc), "%s\n%s" % (str(exc)[:300], text))]
+            return [Failure("load_raises:%s" % A.exc_name(exc), "%s\n%s" % (sstr(exc)[:300], text))]
         if expects:
             rec.label("model_with_documented_error")
             if run_exc is None:
                 fails.append(Failure("expected:%s|got:ok" % "/".join(expects), text))
             elif type(run_exc).__name__ not in expects and not undefined:
-                fails.append(Failure("expected:%s|got:%s" % ("/".join(expects), A.exc_name(run_exc)), str(run_exc)[:300]))
+                fails.append(Failure("expected:%s|got:%s" % ("/".join(expects), A.exc_name(run_exc)), sstr(run_exc)[:300]))
         stats = {}
         compared_nodes = 0
         bad = set()
@@ -129,7 +129,7 @@ def check_model(model, rec):
             sig = "%s|%s" % (node["cmd"], "model")
             if status == "err":
                 bad.add(name)
-                fails.append(Failure("%s|raises:%s" % (sig, A.exc_name(val)), "%s\n%s" % (str(val)[:300], text)))
+                fails.append(Failure("%s|raises:%s" % (sig, A.exc_name(val)), "%s\n%s" % (sstr(val)[:300], text)))
                 continue
             fs = A.compare(val, r, (model["rows"],), sig, stats=stats)
             compared_nodes += 1
@@ -171,7 +171,7 @@ def check_model(model, rec):
                                              "%s differs between\n%s\nand\n%s" % (node["name"], text, text2)))
                         break
             except Exception as exc:
-                fails.append(Failure("rendering_dependent:raises:%s" % A.exc_name(exc), "%s\n%s" % (str(exc)[:300], text2)))
+                fails.append(Failure("rendering_dependent:raises:%s" % A.exc_name(exc), "%s\n%s" % (sstr(exc)[:300], text2)))
     finally:
         shutil.rmtree(tmp, ignore_errors=True)
     return fails
